@@ -7,8 +7,9 @@ spec/Sched/PriorityTrace.tla  validates the operations executed on the real modu
 
 1. TLC: for the three modules (chosen in Init), breadth-first over EVERY sequence of schedule(ring, distance)/select
    operations up to a bound; invariant ImplRefines proves the transcription of the code selects an allowed task in every reachable state
-   (for ip: the variant that ignores the distance, which is what the property requires; the variant that appends
-   re-scheduled rings at the back - the code of the pinned commit - must violate it: sensitivity + model-level
+   (for ip: the variant that ignores the distance, which is what the property requires and what the code does since
+   the repair of sched_ip_schedule; the variant that appends re-scheduled rings at the back - the code before that
+   repair - must violate it: sensitivity + model-level
    reproduction of the ip re-schedule defect, key ip-resched-chain-back).
 2. every such sequence (+ TLC -simulate long walks with wider priorities / longer rings) is replayed through the real
    module's schedule/select (harness/sched/sched_drive.c, PARSEC_MCA_mca_sched=<m>, one stream), then the scheduler is
